@@ -13,7 +13,11 @@ func (c *Config) MatchStandaloneJSON(t testingT, input any, matchers ...match.JS
 	t.Helper()
 
 	if c.extension == "" {
-		c.extension = ".json"
+		// default the extension on a copy: the Config may be shared with other
+		// Match* calls (and goroutines) and must not be modified
+		cc := *c
+		cc.extension = ".json"
+		c = &cc
 	}
 
 	matchStandaloneJSON(c, t, input, matchers...)
